@@ -29,6 +29,7 @@ ASMJIT_END_NAMESPACE
 #undef ujit
 
 #include "vjson.h"
+#include "lib_uniops_names.h"
 #include <string>
 #include <vector>
 #include <functional>
@@ -38,7 +39,25 @@ using namespace asmjit::ujit_a64;
 
 // enumerator names: parsed from the same header by the generator, but the a64 section differs -> local X-macro via the
 // preprocessor is not available; the names are produced by iterating the numeric range and are only used as labels.
-template<typename E> static std::string opname(const char* kind, E e) { return std::string(kind) + "#" + std::to_string(uint32_t(e)); }
+#define X(n) #n,
+static const char* const kNamesVV[] = { X07_A64_UNIOPVV(X) };
+static const char* const kNamesVVI[] = { X07_A64_UNIOPVVI(X) };
+static const char* const kNamesVVV[] = { X07_A64_UNIOPVVV(X) };
+static const char* const kNamesVVVI[] = { X07_A64_UNIOPVVVI(X) };
+static const char* const kNamesVVVV[] = { X07_A64_UNIOPVVVV(X) };
+static const char* const kNamesRR[] = { X07_A64_UNIOPRR(X) };
+static const char* const kNamesRRR[] = { X07_A64_UNIOPRRR(X) };
+#undef X
+static_assert(sizeof(kNamesVVV) / sizeof(kNamesVVV[0]) == size_t(UniOpVVV::kMaxValue) + 1, "names out of sync with uniop.h (python3 checks/x07gen.py names)");
+static_assert(sizeof(kNamesVVI) / sizeof(kNamesVVI[0]) == size_t(UniOpVVI::kMaxValue) + 1, "names out of sync with uniop.h");
+static_assert(sizeof(kNamesVV) / sizeof(kNamesVV[0]) == size_t(UniOpVV::kMaxValue) + 1, "names out of sync with uniop.h");
+static std::string opname(const char* kind, uint32_t e) {
+  std::string k = kind;
+  if (k == "vv") return kNamesVV[e]; if (k == "vvi") return kNamesVVI[e]; if (k == "vvv") return kNamesVVV[e];
+  if (k == "vvvi") return kNamesVVVI[e]; if (k == "vvvv") return kNamesVVVV[e];
+  if (k == "rr32" || k == "rr64") return kNamesRR[e];
+  return kNamesRRR[e];
+}
 
 class ErrH : public ErrorHandler {
 public:
@@ -89,6 +108,7 @@ int main(int argc, char** argv) {
   // VV
   for (uint32_t op = 0; op <= uint32_t(UniOpVV::kMaxValue); op++) for (const char* form : {"d,a", "d=a", "am"}) {
     std::string f = form;
+    if (op >= uint32_t(UniOpVV::kBroadcastV256_U32) && op <= uint32_t(UniOpVV::kBroadcastV256_F64)) continue;   // 256-bit lanes do not exist on AArch64
     run("vv", op, form, [&](UniCompiler& uc, a64::Compiler& cc, const a64::Gp& io) {
       a64::Vec d = uc.new_vec128("d"), a = f == "d=a" ? d : uc.new_vec128("a");
       if (f != "am") ld(cc, a, io, 64); if (f != "d=a") ld(cc, d, io, 256);
